@@ -293,12 +293,19 @@ structure Elem where
   sqrt : Float → Float
   post : Float → Float   -- applied to erf's / erfinv's result
 
+/-- splitmix64 finaliser: a well-mixing hash, so that the nudges of different calls are independent of each
+other *and* across seeds (a linear hash shifts all nudges rigidly with the seed and misses the directions in
+which the errors of two calls must differ) -/
+def mix64 (z0 : UInt64) : UInt64 :=
+  let z := (z0 ^^^ (z0 >>> 30)) * 0xBF58476D1CE4E5B9
+  let z := (z ^^^ (z >>> 27)) * 0x94D049BB133111EB
+  z ^^^ (z >>> 31)
+
 def nudge (seed : Nat) (ulps : Nat) (x : Float) : Float :=
   if ulps == 0 || x.isNaN || x.isInf || x == 0.0 then x else
   let b := x.toBits
-  -- cheap hash of (bits, seed)
-  let h := (b.toNat * 6364136223846793005 + seed * 1442695040888963407 + 12345) % 18446744073709551616
-  let k := (h / 65536) % (2 * ulps + 1)
+  let h := mix64 (b + UInt64.ofNat seed * 0x9E3779B97F4A7C15)
+  let k := h.toNat % (2 * ulps + 1)
   -- move the magnitude by k − ulps units in the last place, keeping the sign and staying finite
   let sgn := b.toNat / 9223372036854775808
   let mag := b.toNat % 9223372036854775808 + k - ulps
